@@ -394,7 +394,14 @@ pub fn step(st: &St, a: &Action, acc: &mut Acc) -> Option<St> {
             let v2 = Value::Object(merged);
             acc.classes.insert(format!("merge:{shallow}"));
             if let Some(why) = why_not(&v2, &k2) {
-                acc.violations.push(Violation::new("C19.merge", w(), format!("{} ∈ {}", vv::show(&v2), k2), why));
+                if *shallow {
+                    // The property only promises that a merge "contains every member of its operands",
+                    // which the Overwrite strategy cannot mean literally; the value-level overwrite merge
+                    // is therefore observed (class counter) but not judged (DESIGN §8, correction 1).
+                    acc.classes.insert("merge:overwrite-result-not-member(observed, not judged)".into());
+                } else {
+                    acc.violations.push(Violation::new("C19.merge", w(), format!("{} ∈ {}", vv::show(&v2), k2), why));
+                }
                 return None;
             }
             // both operands remain members of a union-strategy merge
